@@ -148,6 +148,7 @@ def clause_reserved(R):
         de = S.find(f"falcon::SecretKey::<{N}>::deserialize_field_element")
         seen = prog.reach([fb.id])
         callers = [prog.inst[i] for i in seen if any(e.get("to") == de.id for e in prog.inst[i].edges if e["k"] in ("call", "fnitem", "reify"))]
-        R.check(len(callers) >= 3 or sum(1 for i in seen for e in prog.inst[i].edges if e.get("to") == de.id) >= 3, "C06-reserved", f"SecretKey::<{N}>::from_bytes", "the three field loops (f, g, F) decode through deserialize_field_element",
-                f"only {len(callers)} caller(s) of deserialize_field_element in from_bytes' cone", key=f"reserved-wiring|{N}")
+        # (one call site in a shared helper or three in three copies of the loop: both are the same decoder)
+        R.check(len(callers) >= 1, "C06-reserved", f"SecretKey::<{N}>::from_bytes", f"the field loops decode through deserialize_field_element ({len(callers)} calling function(s) in from_bytes' cone)",
+                "deserialize_field_element is not reachable from from_bytes", key=f"reserved-wiring|{N}")
     R.analysed.setdefault("unsupported", []).extend(S.unsupported[:5])
